@@ -51,6 +51,9 @@ def gen_module(r, depth, recursion, style):
         s.add('"""', multi=True)
     for _ in range(r.randint(0, 3)):
         s.add("# " + r.pick(["comment", "äöü comment", "TODO: nothing", "x" * 30]))
+    if style.get("odd_separators"):
+        # legal in Python source, but line boundaries for str.splitlines(): form feed, FS/GS, NEL, LS/PS
+        s.add(r.pick(["\x0c", "# page\x0cbreak", "# a\x1cb", "# unit\x1d", "# nel\x85here", "# ls\u2028ps\u2029"]), markup=True)
     s.add("import sys")
     s.add("")
     names = ["f%d" % i for i in range(depth)]
